@@ -142,6 +142,15 @@ CHECKS = {
             '(quantized when a formatter is given) or NULL/zero when absent.',
             'Trusted: beancount DisplayContext.quantize as the definition of display precision.',
             'DESIGN.md section 4, C17'),
+    'C18': ('exhaustive enumeration of finite domains (every date 1900-2100 x 34 date laws; 155 account names x n; 341 strings x 169 index pairs; string/regex/set laws) + Hypothesis for inverse laws, date_bin, interval arithmetic, decimal functions; enumerated cast inputs of every type',
+            'Calendar laws are checked on every date from 1900-01-01 to 2100-12-31 (first day of unit, <= d, idempotent, '
+            'monotone; all extraction functions and 13 date_part fields against Python datetime), account functions on all '
+            'names of 1..5 components over the five roots (also with renamed root types, two ledgers in one process), string '
+            'functions on all strings of length <= 4 over a 4-letter alphabet with all index arguments -6..6 - these parts '
+            'are exhaustive; date arithmetic inverses, date_bin (including exact bin starts) and decimal functions are '
+            'sampled (30 000 cases each); 45 cast inputs x 5 casts x typed/untyped columns must give the value or NULL.',
+            'Trusted: Python datetime, re, decimal, textwrap, dateutil.relativedelta as the definitions.',
+            'DESIGN.md section 4, C18'),
 }
 
 ALL = [f'C{i:02d}' for i in range(1, 21)]
